@@ -181,14 +181,22 @@ func (pass *DisjunctionInferMapping) buildDiscriminatorMapping(schema *ast.Schem
 
 		typeName := branch.AsRef().ReferredType
 
+		var discriminatorValue any
 		switch field.Type.Kind {
 		case ast.KindScalar:
-			mapping[field.Type.AsScalar().Value.(string)] = typeName
+			discriminatorValue = field.Type.AsScalar().Value
 		case ast.KindConstantRef:
-			mapping[field.Type.AsConstantRef().ReferenceValue.(string)] = typeName
+			discriminatorValue = field.Type.AsConstantRef().ReferenceValue
 		default:
 			return nil, fmt.Errorf("discriminator field '%s' is not concrete", field.Name)
 		}
+
+		discriminatorString, isString := discriminatorValue.(string)
+		if !isString {
+			return nil, fmt.Errorf("discriminator field '%s' does not hold a string", field.Name)
+		}
+
+		mapping[discriminatorString] = typeName
 	}
 
 	return mapping, nil
